@@ -163,6 +163,25 @@ func vfHostileClient(plan *vfCliPlan, log *vfCliLog) func(ctx context.Context, a
 				_, _ = out.Write([]byte{0, 0, 0, 9, 0xff, 0xff, 0xff, 0xff, 0xff, 0xff, 0xff, 0xff, 0xff})
 				flush()
 				return nil
+			case "garbagereading":
+				// like a process that ignores the runner's abort for a while: emits garbage, then keeps
+				// consuming its stdin (answering nothing) until the runner closes it
+				markBad("garbage")
+				_, _ = out.Write([]byte{0, 0, 0, 9, 0xff, 0xff, 0xff, 0xff, 0xff, 0xff, 0xff, 0xff, 0xff})
+				for {
+					var pre [4]byte
+					if _, err := io.ReadFull(rd, pre[:]); err != nil {
+						return nil
+					}
+					buf := make([]byte, binary.BigEndian.Uint32(pre[:]))
+					if _, err := io.ReadFull(rd, buf); err != nil {
+						return nil
+					}
+					log.mu.Lock()
+					log.Read = append(log.Read, vfPeekName(buf))
+					log.Events = append(log.Events, "client_read_after_garbage")
+					log.mu.Unlock()
+				}
 			case "oversize":
 				markBad("oversize")
 				_, _ = out.Write([]byte{0x7f, 0xff, 0xff, 0xff, 1, 2, 3})
@@ -306,7 +325,7 @@ func vfRunMuxHistory(rep *verifkit.Report, h int, stall bool) {
 		names[i] = fmt.Sprintf("Suite %d/case-%d", h%7, i)
 	}
 	// never-answered names may be sent twice (deliberate duplicates)
-	plan := &vfCliPlan{FailKind: verifkit.Pick(rng, []string{"none", "none", "exit0", "exit1", "garbage", "oversize", "cut", "cut", "ghost", "stopreading", "earlyanswer", "dupanswer"}),
+	plan := &vfCliPlan{FailKind: verifkit.Pick(rng, []string{"none", "none", "exit0", "exit1", "garbage", "garbagereading", "garbagereading", "oversize", "cut", "cut", "ghost", "stopreading", "earlyanswer", "dupanswer"}),
 		FailAfter: rng.Intn(nNames + 1), CutAt: rng.Intn(64)}
 	if stall {
 		plan.FailKind = "stall"
@@ -583,7 +602,7 @@ func wUnlocked(h int, plan *vfCliPlan, assign [][]string, sends []vfSendRec, cal
 // TestVerifC10Mux: exactly-once oracle over recorded histories of the real
 // clientProcessRunner with a scripted hostile client.
 func TestVerifC10Mux(t *testing.T) {
-	rep := verifkit.Begin("C10", "mux", "histories of runClient(runInProcess(hostile client)): 1-4 concurrent senders share 2-12 uniquely named requests (optionally one name sent twice), closeSend racing with senders; client script per request {answer, defer+reorder, never}, failure {none, exit 0/1 after j reads, garbage, oversize prefix, frame cut after every byte offset, unknown name, duplicate answer, stops reading stdin, answers before the request is fully read then closes stdin}, 0-2 ms delays inside stdin reads and before answers; every answer carries a unique token; distinct = histories with a request in flight when the failure struck, by (failure, reads, delivered, per-request outcome) signature")
+	rep := verifkit.Begin("C10", "mux", "histories of runClient(runInProcess(hostile client)): 1-4 concurrent senders share 2-12 uniquely named requests (optionally one name sent twice), closeSend racing with senders; client script per request {answer, defer+reorder, never}, failure {none, exit 0/1 after j reads, garbage, garbage and then keeps consuming stdin, oversize prefix, frame cut after every byte offset, unknown name, duplicate answer, stops reading stdin, answers before the request is fully read then closes stdin}, 0-2 ms delays inside stdin reads and before answers; every answer carries a unique token; distinct = histories with a request in flight when the failure struck, by (failure, reads, delivered, per-request outcome) signature")
 	defer rep.Write()
 	n := verifkit.Scale(1500, 40000)
 	var wg sync.WaitGroup
